@@ -3,10 +3,11 @@
 spec: Partition (what a valid partition is), PartitionAlg (the current algorithm, refines Partition)
 binding: (a) TLC enumerates every (n, b, s, mode) within the export constants; each is replayed into the
 real batch_tasks and the returned list is validated by TLC against Partition (not PartitionAlg);
-(b) seeded random inputs with n up to 1e7 and run_worker calls through a recording pool are recorded
+(b) seeded random inputs with n up to 1e7 and the tasks a recording pool receives from the public calls (natural and randomized order) are recorded
 and validated by the PartitionTrace monitor."""
 import os
 import random
+import shutil
 
 import numpy as np
 
@@ -46,124 +47,64 @@ def call_batch_tasks(case):
     return tr
 
 
-class RecPool:
-    """pool with .map/.close/.size that records tasks and executes them in a chosen order."""
-
-    def __init__(self, size, order_seed):
-        self.size = size
-        self.calls = []
-        self._rnd = random.Random(order_seed)
-
-    def map(self, worker, tasks):
-        tasks = list(tasks)
-        self.calls.append(tasks)
-        order = list(range(len(tasks)))
-        self._rnd.shuffle(order)
-        res = [None] * len(tasks)
-        for k in order:
-            res[k] = worker(tasks[k])
-        return res
-
-    def close(self):
-        pass
-
-
-_TAG = {}
-
-
-def _tag_worker(task):
-    # result = 1-based position of the task in the map call, found through the task's own start index
-    return _TAG[int(task[1])]
-
-
-def have_run_worker():
-    import thejoker.multiproc_helpers as mh
-    return hasattr(mh, "run_worker")
-
-
-def call_via_api(case):
-    """the same observation without reaching into multiproc_helpers: the tasks a recording pool receives from
-    TheJoker.marginal_ln_likelihood / rejection_sample on a library file (used when run_worker is not there to be called)"""
-    import thejoker as tj
-    from .. import fixture
-    prior = fixture.make_prior("default")
-    data = fixture.make_data()
+def call_via_session(case):
+    """what the pool is handed by the PUBLIC calls (marginal_ln_likelihood / rejection_sample on the cache-file paths, natural or
+    randomized order), observed with the recording generator and pool of the sampler checks: the partition of the requested rows
+    (or of the index array the sampler chose) and whether the values came back in that order"""
+    from .. import sampler_driver as sd
+    from . import c02
+    g = c02._setup()
+    lib = c02._lib(case["n_total"])
+    wd = os.path.join(case["workdir"], case["id"])
+    os.makedirs(wd, exist_ok=True)
+    s = sd.Session(lib, g["data"], g["prior"], seed=case["id_seed"], pool="rec", pool_size=max(1, case["pool_size"]),
+                   order_seed=case["id_seed"], workdir=wd)
+    s.header()
     n_total = case["n_total"]
-    lib = fixture.Library(n_total, seed=n_total)
-    path = case["file"] + ".api.hdf5"
-    if not os.path.exists(path):
-        lib.write(path)
-    pool = RecPool(case["pool_size"], case["id_seed"])
-    joker = tj.TheJoker(prior, pool=pool, rng=np.random.default_rng(case["id_seed"]))
-    kw = {}
-    if case["n_batches"] is not None:
-        kw["n_batches"] = case["n_batches"]
-    ref = np.asarray(tj.TheJoker(prior).marginal_ln_likelihood(data, lib.samples, in_memory=True))
-    if case["sel"] == "n_prior":
-        n = case["n_prior"]
-        res = joker.rejection_sample(data, path, n_prior_samples=n, return_all_logprobs=True, **kw)
-        ll = np.asarray(res[1])
-    else:
-        n = n_total
-        ll = np.asarray(joker.marginal_ln_likelihood(data, path, **kw))
-    tasks = pool.calls[0]
-    ok = len(ll) == n and np.allclose(ll, ref[:n], rtol=1e-9, atol=1e-9)
-    k = len(tasks)
-    tr = {"id": case["id"], "kind": "run", "arrkind": "idx", "n": int(n), "s": 0, "arr": [],
-          "results": list(range(1, k + 1)) if ok else list(range(k, 0, -1)) + [0]}
-    from .. import collab
-    parsed = [collab.parse_task(t) for t in tasks]
-    if any(p is None or p[0]["kind"] != "range" for p in parsed):
-        return {"id": case["id"], "skip": True, "n": int(n)}       # tasks this harness cannot read: nothing observed, nothing judged
-    tr["tasks"] = [{"lo": p[0]["lo"], "hi": p[0]["hi"], "start": p[0]["start"]} for p in parsed]
-    return tr
-
-
-def call_run_worker(case):
-    if not have_run_worker():
-        return call_via_api(case)
-    from thejoker.multiproc_helpers import run_worker
-    path = case["file"]
-    pool = RecPool(case["pool_size"], case["id_seed"])
-    kw = {}
-    n_total = case["n_total"]
-    arr = []
+    nb = case["n_batches"] or 0
+    path = ["object", "file"][case["id_seed"] % 2]
     if case["sel"] == "all":
         n = n_total
-        arrkind = "idx"
+        s.call("marginal", path=path, nbatches=nb)
     elif case["sel"] == "n_prior":
         n = case["n_prior"]
-        kw["n_prior_samples"] = n
-        arrkind = "idx"
+        s.call("rejection", path=path, nprior=n, nbatches=nb, all=True)
     else:
-        arr = case["idx"]
-        n = len(arr)
-        kw["samples_idx"] = np.array(arr)
-        arrkind = "arr"
-    if case["n_batches"] is not None:
-        kw["n_batches"] = case["n_batches"]
-    # tag = position of the task: computed from what the pool sees
-    _TAG.clear()
-
-    class P(RecPool):
-        def map(self, worker, tasks):
-            tasks = list(tasks)
-            for k, t in enumerate(tasks):
-                _TAG[int(t[1])] = k + 1
-            return RecPool.map(self, worker, tasks)
-    pool = P(case["pool_size"], case["id_seed"])
-    results = run_worker(_tag_worker, pool, path, task_args=("a",), **kw)
-    tasks = pool.calls[0]
-    tr = {"id": case["id"], "kind": "run", "arrkind": arrkind, "n": int(n), "s": 0, "arr": [int(x) for x in arr],
-          "results": [int(r) for r in results]}
-    tr["tasks"] = _norm_tasks_idx(tasks) if arrkind == "idx" else _norm_tasks_arr(tasks)
+        n = case.get("n_prior") or n_total
+        s.call("rejection", path=path, nprior=(case.get("n_prior") or 0), nbatches=nb, all=True, randomize=True)
+    shutil.rmtree(wd, ignore_errors=True)
+    ev = s.events
+    call = [e for e in ev if e["ev"] == "Call"][-1]
+    maps = [e for e in ev if e["ev"] == "Map" and e["worker"] == "marginal_ln_likelihood_worker"]
+    ret = [e for e in ev if e["ev"] == "Return"][-1]
+    if not call.get("observed", True) or not maps or ret["raised"]:
+        return {"id": case["id"], "skip": True, "n": int(n)}
+    tasks = maps[0]["tasks"]
+    ref = [e for e in ev if e["ev"] == "Header"][-1]["ref"]
+    evald = [r for t in tasks for r in t["sel"]]
+    inorder = ret["hasall"] and len(ret["allll"]) == len(evald) and all(ret["allll"][k] == ref[evald[k] - 1] for k in range(len(evald)))
+    k = len(tasks)
+    tr = {"id": case["id"], "kind": "run", "n": int(n), "s": 0, "results": list(range(1, k + 1)) if inorder else list(range(k, 0, -1)) + [0]}
+    if case["sel"] == "idx":
+        choice = [e for e in ev if e["ev"] == "Draw" and e["method"] == "choice"]
+        if not choice or any(t["kind"] != "idx" for t in tasks):
+            return {"id": case["id"], "skip": True, "n": int(n)}
+        arr = [int(x) - 1 for x in choice[-1]["result"]]
+        tr.update(arrkind="arr", arr=arr, n=len(arr), tasks=[{"payload": [int(x) - 1 for x in t["sel"]], "start": int(t["start"])} for t in tasks])
+    else:
+        if any(t["kind"] != "range" for t in tasks):
+            return {"id": case["id"], "skip": True, "n": int(n)}
+        def lohi(t):
+            lo = (t["sel"][0] - 1) if t["sel"] else int(t["start"])
+            return {"lo": lo, "hi": lo + len(t["sel"]), "start": int(t["start"])}
+        tr.update(arrkind="idx", arr=[], tasks=[lohi(t) for t in tasks])
     return tr
 
 
 def run(ctx, selftest=False):
     quick = ctx.tier == "quick"
     ctx.rule = ("cases = every (n,b,s,mode) TLC enumerates in MC_PartitionAlg_export + seeded random (n up to 1e7, b up to n+10, "
-                "s up to 1e6) + run_worker calls through a recording pool; distinct = distinct (n,b,s,mode,kind); "
+                "s up to 1e6) + the tasks a recording pool receives from the public calls (natural and randomized order); distinct = distinct (n,b,s,mode,kind); "
                 "trivial = n=1 or b=1 (single task forced)")
     ctx.assumptions = ["TLC/SANY/CommunityModules", "numpy arange/slicing", "JSON transport of integers < 2^31"]
     # 1. design level: the algorithm refines the property (exhaustive)
@@ -216,38 +157,26 @@ def run(ctx, selftest=False):
         traces.append(t)
     ctx.notes["replayed_equal_to_PartitionAlg"] = same_as_alg
     ctx.notes["replayed_from_tlc"] = len(alg)
-    # 4. run_worker through a recording pool
-    import astropy.units as u
-    from thejoker.samples import JokerSamples
-    files = {}
-    for n_total in ([1, 2, 7, 30] if quick else [1, 2, 3, 7, 30, 101]):
-        s = JokerSamples()
-        s["P"] = np.arange(1, n_total + 1) * u.day
-        s["e"] = np.zeros(n_total)
-        p = os.path.join(ctx.workdir, "lib%d.hdf5" % n_total)
-        s.write(p, overwrite=True)
-        files[n_total] = p
+    # 4. what the pool receives from the public calls (recording generator and pool of the sampler checks)
     nrun = 150 if quick else 1500
+    rcases = []
     for k in range(nrun):
-        n_total = rnd.choice(list(files))
+        n_total = rnd.choice([1, 2, 7, 30] if quick else [1, 2, 3, 7, 30, 101])
         sel = rnd.choice(["all", "n_prior", "idx"])
-        c = {"id": "run-%d" % k, "file": files[n_total], "n_total": n_total, "sel": sel, "id_seed": rnd.randint(0, 10**6),
-             "pool_size": rnd.choice([0, 1, 2, 3, 5]),
+        c = {"id": "run-%d" % k, "n_total": n_total, "sel": sel, "id_seed": rnd.randint(0, 10**6), "workdir": ctx.workdir,
+             "pool_size": rnd.choice([1, 2, 3, 5]),
              "n_batches": rnd.choice([None, None, 1, 2, 3, rnd.randint(1, n_total + 3)])}
-        if sel == "n_prior":
+        if sel == "n_prior" or (sel == "idx" and rnd.random() < 0.5):
             c["n_prior"] = rnd.randint(1, n_total)
-        if sel == "idx":
-            m = rnd.randint(1, n_total)
-            c["idx"] = rnd.sample(range(n_total), m)
-            if not have_run_worker():
-                c["sel"] = "all"          # index arrays are chosen by the library itself on the public paths
-        t = call_run_worker(c)
+        rcases.append(c)
+    for c, t in zip(rcases, core.pmap(call_via_session, rcases, chunksize=8)):
+        n_total, sel = c["n_total"], c["sel"]
         ctx.count()
         if t.get("skip"):
             ctx.notes["pool_calls_not_readable"] = ctx.notes.get("pool_calls_not_readable", 0) + 1
             continue
         if t["n"] > 1:
-            ctx.nontrivial(("run", n_total, sel, c["n_batches"], c["pool_size"], tuple(c.get("idx", [])), c.get("n_prior")))
+            ctx.nontrivial(("run", n_total, sel, c["n_batches"], c["pool_size"], c["id_seed"] % 2, c.get("n_prior")))
         traces.append(t)
     for t in traces[:2] + traces[len(alg):len(alg) + 1] + traces[-1:]:
         ctx.sample({k: (v if k != "arr" or len(v) < 12 else v[:12] + ["..."]) for k, v in t.items()})
